@@ -78,7 +78,7 @@ func describeFilter(e Event, f *gcs.Filter, key [16]byte, p uint8, m uint64, ite
 	retain("GCS", "NPBytes", npb)
 	e["bytes"], e["nb"], e["pb"], e["npb"] = ints(b), ints(nb), ints(pb), ints(npb)
 	e["rn"], e["rp"] = int(f.N()), int(f.P())
-	answer := func(ff *gcs.Filter) ([]interface{}, []interface{}) {
+	answer := func(ff *gcs.Filter, each bool) ([]interface{}, []interface{}) {
 		var qs []interface{}
 		var flat []interface{}
 		for _, q := range queries {
@@ -94,6 +94,17 @@ func describeFilter(e Event, f *gcs.Filter, key [16]byte, p uint8, m uint64, ite
 				ss, single = [][]int{}, []bool{}
 			}
 			qm["sips"], qm["single"] = ss, single
+			// for the large sets every item is also asked ALONE through the indexed and the merging strategy: whatever
+			// Match says of an item, they say too
+			he, ze := []bool{}, []bool{}
+			if each && len(q) >= 200 && len(q) <= 6000 {
+				for _, it := range q {
+					h1, _ := ff.HashMatchAny(key, [][]byte{it})
+					z1, _ := ff.ZipMatchAny(key, [][]byte{it})
+					he, ze = append(he, h1), append(ze, z1)
+				}
+			}
+			qm["hasheach"], qm["zipeach"] = he, ze
 			qm["any"], _ = ff.MatchAny(key, q)
 			qm["zip"], _ = ff.ZipMatchAny(key, q)
 			qm["hash"], _ = ff.HashMatchAny(key, q)
@@ -105,7 +116,7 @@ func describeFilter(e Event, f *gcs.Filter, key [16]byte, p uint8, m uint64, ite
 		}
 		return qs, flat
 	}
-	qs, flat := answer(f)
+	qs, flat := answer(f, true)
 	e["queries"], e["answers"] = qs, flat
 	// filters rebuilt from each serialisation answer identically
 	var rebuilt []interface{}
@@ -115,7 +126,7 @@ func describeFilter(e Event, f *gcs.Filter, key [16]byte, p uint8, m uint64, ite
 			return
 		}
 		rbts, _ := ff.Bytes()
-		_, fl := answer(ff)
+		_, fl := answer(ff, false)
 		rebuilt = append(rebuilt, map[string]interface{}{"via": via, "n": int(ff.N()), "p": int(ff.P()), "bytes": ints(rbts), "answers": fl})
 	}
 	// the caller's buffer is re-used after the call (a network read buffer): a rebuilt filter owns its data
@@ -196,6 +207,7 @@ func opGcsBuilder(_ *HState, a Event) Event {
 	desc := gList(a, "desc")
 	txs := buildTxs(desc, gInt(a, "salt"))
 	blk := wire.NewMsgBlock(wire.NewBlockHeader(1, &chainhash.Hash{3}, &chainhash.Hash{}, 0x1d00ffff, uint32(gInt(a, "salt"))))
+	blk.Header.Timestamp = time.Unix(1600000000+int64(gInt(a, "salt")%100000), 0) // not the clock: the call is a function of its arguments
 	for _, t := range txs {
 		blk.AddTransaction(t)
 	}
